@@ -614,6 +614,82 @@ def run_djb(ck):
     ck.coverage["rule"] += "djb: the corpus pairs of label sets (the recorded Bernstein collision found by a birthday search, control pairs) under both fingerprint types; all non-trivial. "
 
 
+# ------------------------------------------------------------------------------------------ the flush rule at the parser
+def run_chunks(ck):
+    n = ck.n(120, 1500)
+    outp = os.path.join(ck.work, "chunks.jsonl")
+    rc, out = ck.go_run("seriesid", ["--mode", "chunks", "--seed", ck.seed, "--n", n, "--out", outp])
+    if rc != 0:
+        ck.obligation("harness seriesid --mode chunks ran", False, out[-1500:])
+        return
+    cases = [json.loads(l) for l in open(outp)]
+    bad = [c for c in cases if c.get("panic") or c.get("err")]
+    ck.obligation("every generated body was parsed", not bad, json.dumps([{k: c.get(k) for k in ("id", "err", "panic")} for c in bad[:2]]))
+    ok = [c for c in cases if c not in bad]
+
+    def to_coq(c):
+        fpid = {}
+
+        def fid(fp):
+            return fpid.setdefault(str(fp), len(fpid) + 1)
+        zs = []
+        for s_ in c["streams"]:
+            es = coq_list(["{| e_ts := %s; e_type := %s |}" % (coq_u64(e["ts"]), TNAME[e["t"]]) for e in s_["entries"]])
+            zs.append("{| z_stream := {| s_fp := %d; s_entries := %s |}; z_lens := %s; z_doc := %d |}" % (
+                fid(s_["fp"]), es, coq_list([str(e["len"]) for e in s_["entries"]]), s_["doclen"]))
+        chunks = []
+        for ch in c["chunks"] or []:
+            chunks.append("(%s, %s)" % (coq_list(["(%s, %d, %s)" % (r[0], fid(r[1]), r[2]) for r in ch["rows"]]),
+                                        coq_list(["(%d, day_of %s, %s)" % (fid(r[0]), coq_u64(r[1]), r[2]) for r in ch["samples"]])))
+        return "{| zc_id := %d; zc_streams := %s; zc_chunks := %s |}" % (c["id"], coq_list(zs), coq_list(chunks))
+    txt = ("From Coq Require Import List ZArith Bool Uint63.\n"
+           "From Qryn Require Import model.Labels model.SeriesIndex model.FlushRule.\n"
+           "Import ListNotations.\nOpen Scope Z_scope.\n"
+           "Definition cases : list zcase := [\n  " + ";\n  ".join(to_coq(c) for c in ok) + "].\n"
+           "Definition R := Eval vm_compute in zreport cases.\nPrint R.\n")
+    rc, out = ck.coq_eval("C04_chunks", txt)
+    res = parse_report(out, ["M_chunks", "V_chunks"]) if rc == 0 else None
+    if res is None:
+        ck.obligation("chunk cases evaluated inside Coq", False, out[-1500:])
+        return
+    byid = {c["id"]: c for c in ok}
+    size = lambda c: (len(c["streams"]), sum(len(s_["entries"]) for s_ in c["streams"]))
+    show = lambda c: {"streams": [{"labels": "pool set %d" % s_["ls"], "fingerprint": s_["fp"], "length of the labels text": s_["doclen"],
+                                   "entries": [{"ts": e["ts"], "type": e["t"], "line bytes": e["len"]} for e in s_["entries"]]} for s_ in c["streams"]],
+                      "chunks sent by the parser": [{"series rows": ch["rows"], "samples": len(ch["samples"])} for ch in c["chunks"] or []]}
+    nmulti = sum(1 for c in ok if len(c["chunks"] or []) > 1)
+    nlate = 0
+    for c in ok:
+        seen = set()
+        for ch in c["chunks"] or []:
+            rows = set((r[1], r[0], r[2]) for r in ch["rows"])
+            if any((s_[0], str(int(s_[1]) // 10**9 // 86400), s_[2]) not in rows and (s_[0], str(int(s_[1]) // 10**9 // 86400), s_[2]) in seen for s_ in ch["samples"]):
+                nlate += 1
+                break
+            seen |= rows
+    ck.obligation("correspondence: model FlushRule.chunks_of (onEntries' size accounting, limit 1 MiB, final flush) = the chunks the real parser sends, rows and samples per chunk, on %d bodies (%d sent in several chunks)" % (len(ok), nmulti),
+                  not res["M_chunks"] and nmulti >= 10, "case ids: %s" % res["M_chunks"][:10])
+    ck.obligation("spec: in every chunk sequence each sample has the series row of its day and type in its own or an earlier chunk and no row is sent twice (%d bodies where a sample's row went out in an EARLIER chunk)" % nlate,
+                  not res["V_chunks"] and nlate >= 3, "case ids: %s" % res["V_chunks"][:10])
+    if res["V_chunks"]:
+        c = min((byid[i] for i in res["V_chunks"]), key=size)
+        ck.violation({"property": "C04", "part": "chunks", "kind": "a chunk carries a sample whose series row is neither in it nor in an earlier chunk of the request (or a row is sent twice)",
+                      "case": c, "readable": show(c), "explanation": "chunks_ok (model/FlushRule.v) on the observed chunks", "replay": "seriesid --mode chunks --cases <file with this case>"})
+    elif res["M_chunks"]:
+        c = min((byid[i] for i in res["M_chunks"]), key=size)
+        ck.violation({"property": "C04", "part": "chunks", "kind": "model/implementation disagree on where the parser flushes or what a chunk carries; spec oracle still accepts",
+                      "case": c, "readable": show(c)}, no_input=True)
+    hist = {}
+    for c in cases:
+        hist[c["class"]] = hist.get(c["class"], 0) + 1
+    ck.coverage["evaluations"] += len(cases)
+    ck.coverage["distinct_nontrivial"] += len(set(json.dumps(c["streams"]) for c in cases if len(c["chunks"] or []) > 1))
+    ck.coverage["rule"] += ("chunks: Loki JSON bodies of 1..7 streams whose log lines have chosen lengths (1 B .. 1.1 MB): one line exactly at / one byte around the 1 MiB limit (the labels text length enters the sum), "
+                            "the limit crossed by the sum of several streams, small bodies, mixtures; parsed by the exported parser, every ParserResponse recorded; non-trivial = sent in at least 2 chunks, distinct by content. ")
+    ck.extra["chunks_input_classes"] = hist
+    ck.extra["chunks_bodies_sent_in_several_chunks"] = nmulti
+
+
 # ------------------------------------------------------------------------------------------ histories
 H_LISTS = ["M_hist", "V_hist"]
 TNAME = {0: "TBoth", 1: "TLog", 2: "TMetric"}
@@ -1093,6 +1169,6 @@ def run(ck):
         return
     # VERIF_C04_PARTS=labels,protos runs only these parts (development aid; the evidence of such a run is partial)
     parts = [x for x in os.environ.get("VERIF_C04_PARTS", "").split(",") if x]
-    for name, fn in (("labels", run_labels), ("protos", run_protos), ("djb", run_djb), ("hist", run_hist), ("keys", run_keys), ("dates", run_dates)):
+    for name, fn in (("labels", run_labels), ("protos", run_protos), ("djb", run_djb), ("chunks", run_chunks), ("hist", run_hist), ("keys", run_keys), ("dates", run_dates)):
         if not parts or name in parts:
             fn(ck)
